@@ -61,6 +61,24 @@ ENTITY v9_refc; t : OPTIONAL v9_tgt; END_ENTITY;""",
 ENTITY v10_ref; one : OPTIONAL v10_tgt; many : LIST [0:?] OF v10_tgt; END_ENTITY;""",
             {'targets': ['v10_tgt'], 'referrers': [('v10_ref', [('one', 'single'), ('many', 'aggr')])],
              'inverses': {'v10_tgt': [('by_one', 'v10_ref', 'one', 'set'), ('by_many', 'v10_ref', 'many', 'set')]}}),
+    # referrer side with multiple inheritance: j is a subtype of BOTH s1 and s2, k (declared after j) of s2 only; every kind of v11_s2 is a referrer
+    'v11': ("""ENTITY v11_tgt; n : INTEGER; INVERSE users : SET [0:?] OF v11_s2 FOR t; END_ENTITY;
+ENTITY v11_s1; a1 : INTEGER; END_ENTITY;
+ENTITY v11_s2; t : OPTIONAL v11_tgt; END_ENTITY;
+ENTITY v11_j SUBTYPE OF (v11_s1, v11_s2); jx : INTEGER; END_ENTITY;
+ENTITY v11_k SUBTYPE OF (v11_s2); kx : INTEGER; END_ENTITY;
+ENTITY v11_l SUBTYPE OF (v11_s2, v11_s1); lx : INTEGER; END_ENTITY;""",
+            {'targets': ['v11_tgt'], 'referrers': [('v11_s2', [('t', 'single')]), ('v11_j', [('t', 'single')]), ('v11_k', [('t', 'single')]), ('v11_l', [('t', 'single')])],
+             'inverses': {'v11_tgt': [('users', 'v11_s2', 't', 'set')]}, 'isa': {'v11_j': 'v11_s2', 'v11_k': 'v11_s2', 'v11_l': 'v11_s2'},
+             'pre': {'v11_j': ['7']}, 'extra': {'v11_j': ['8'], 'v11_k': ['9'], 'v11_l': ['6', '5']}}),
+    # target side with multiple inheritance: the inverse is declared by m, reached through the SECOND supertype (c) of the second supertype's... d(b, c), b(a), c(a, m)
+    'v12': ("""ENTITY v12_a; n : INTEGER; END_ENTITY;
+ENTITY v12_m; mm : INTEGER; INVERSE logs : SET [0:?] OF v12_ref FOR t; END_ENTITY;
+ENTITY v12_b SUBTYPE OF (v12_a); bb : INTEGER; END_ENTITY;
+ENTITY v12_c SUBTYPE OF (v12_a, v12_m); cc : INTEGER; END_ENTITY;
+ENTITY v12_tgt SUBTYPE OF (v12_b, v12_c); dd : INTEGER; END_ENTITY;
+ENTITY v12_ref; t : OPTIONAL v12_m; END_ENTITY;""",
+            {'targets': ['v12_tgt'], 'referrers': [('v12_ref', [('t', 'single')])], 'inverses': {'v12_tgt': [('logs', 'v12_ref', 't', 'set')]}, 'tparams': {'v12_tgt': 5}}),
 }
 SCHEMA = 'SCHEMA iv;\n' + '\n'.join(v[0] for v in VARIANTS.values()) + '\nEND_SCHEMA;\n'
 
@@ -96,7 +114,7 @@ def populations(vname, desc, tier):
                     exp = {t: {inv[0]: [] for inv in desc['inverses'][tgt]} for t in tids}
                     for k, ((en, attrs), vals) in enumerate(zip(ents, combo)):
                         rid = 10 + k
-                        ps = []
+                        ps = list(desc.get('pre', {}).get(en, []))
                         for (an, kind), v in zip(attrs, vals):
                             if kind == 'single':
                                 ps.append('$' if v is None else '#%d' % v)
